@@ -178,6 +178,57 @@ def run_case(case):
     return out
 
 
+REAL_CASES = {'quick': 12, 'thorough': 250}      # per shard
+
+
+def shard_extra(tier, seed, shard, nshards, tally, deadline):
+    """Corroboration on real threads (vlib/realrun.py): the status map and the execution counts
+    of generated cases run on the unmodified modules with real threads are compared with the
+    same schedule-free model.  A disagreement is looked for under the controlled scheduler (the
+    case's schedules, the default one, all schedules with <= 1 pre-emption); what is reproduced
+    there is reported with its schedule, the rest is counted as unconfirmed."""
+    from vlib import realrun
+    cases = [dict({k: v for k, v in case.items() if k != 'scheds'}, sched=case['scheds'][0])
+             for case in realrun.collect_cases(_case(), seed * 1000 + 500 + shard, REAL_CASES[tier])]
+    observations = realrun.corroborate(cases)
+    stats = {'real_thread_runs': 0, 'real_thread_agree_with_model': 0, 'real_thread_suspect': 0,
+             'real_thread_suspect_confirmed': 0, 'real_thread_unconfirmed': 0, 'real_thread_not_run': 0}
+    for case, obs in zip(cases, observations):
+        if obs['how'] == 'not-run':
+            stats['real_thread_not_run'] += 1
+            continue
+        stats['real_thread_runs'] += 1
+        model, execs = sc.model_statuses(case)
+        agree = (obs['how'] == 'returned'
+                 and all(obs['statuses'].get(str(i)) == model[i] for i in range(case['n']))
+                 and all(obs['executions'].get(str(i)) == execs[i] for i in range(case['n'])))
+        if agree:
+            stats['real_thread_agree_with_model'] += 1
+            continue
+        stats['real_thread_suspect'] += 1
+        found = {}
+        for spec in (case['sched'], ('choices', [])):
+            fails, _st = judge(case, sc.execute(case, spec), dict(case, sched=spec))
+            for fail in fails:
+                found.setdefault(fail.signature, fail)
+
+        def visit(choices, rec, case=case, found=found):
+            fails, _st = judge(case, rec, dict(case, sched=('choices', list(choices))))
+            for fail in fails:
+                found.setdefault(fail.signature, fail)
+        if not found and case['n'] <= 4:
+            sc.dfs_run(case, 1, visit, limit=400)
+        out = Outcome()
+        out.labels.append('real-threads-suspect')
+        if found:
+            stats['real_thread_suspect_confirmed'] += 1
+            out.failures.extend(found.values())
+        else:
+            stats['real_thread_unconfirmed'] += 1
+        tally.add(case, out, 'real-threads')
+    return stats
+
+
 MANIFEST = {
     'text': ('Generated search over (DAG, failing subset incl. malformed returns, worker count, schedules) on '
              'the real back-end under the controlled scheduler; the final status map and execution counters '
